@@ -10,26 +10,28 @@ fn any_core() -> Hc128Core {
 // Equality of the cores is proved for arbitrary cores on the Verus side; here the core is a fixed one (so that
 // generate() is concrete and cheap) and the read positions range over ALL pairs 0..=16, reached both by
 // generate_and_set and by consuming words, including "last word left" vs "block used up".
+fn at_position(p: usize) -> Hc128Rng {
+    // read position p of the block generated from the fixed core: generate_and_set(p) for p < 16; position 16 ("block used
+    // up") is reached by consuming the last word
+    let mut r = Hc128Rng(BlockRng::new(Hc128Core { t: [0u32; 1024], counter1024: 0 }));
+    if p < 16 {
+        r.0.generate_and_set(p);
+    } else {
+        r.0.generate_and_set(15);
+        let _ = r.next_u32();
+    }
+    r
+}
 #[kani::proof]
-#[kani::unwind(20)]
+#[kani::unwind(4100)]
 fn hc128_rng_eq_all_index_pairs() {
-    let core = Hc128Core { t: [0u32; 1024], counter1024: 0 };
-    let mut r1 = Hc128Rng(BlockRng::new(core.clone()));
-    let mut r2 = Hc128Rng(BlockRng::new(core));
-    let i: usize = kani::any();
-    let j: usize = kani::any();
-    kani::assume(i < 16 && j < 16);
-    r1.0.generate_and_set(i);
-    r2.0.generate_and_set(j);
-    let n1: usize = kani::any();
-    let n2: usize = kani::any();
-    kani::assume(n1 <= 16 - i && n2 <= 16 - j);
-    let mut k = 0;
-    while k < n1 { let _ = r1.next_u32(); k += 1; }
-    let mut k = 0;
-    while k < n2 { let _ = r2.next_u32(); k += 1; }
-    // same core (one generate each from the same state), positions i+n1 and j+n2 in 0..=16
-    assert!((r1 == r2) == (i + n1 == j + n2));
+    let p1: usize = kani::any();
+    let p2: usize = kani::any();
+    kani::assume(p1 <= 16 && p2 <= 16);
+    let r1 = at_position(p1);
+    let r2 = at_position(p2);
+    // same core (one generate each from the same state), read positions p1 and p2 in 0..=16
+    assert!((r1 == r2) == (p1 == p2));
 }
 
 // ---- C02/C09: from_seed passes the little-endian words of the seed to init (init itself: Verus) -----------------
